@@ -385,11 +385,42 @@ func c19Effects(w *W) {
 		}
 		w.Sleep(2 * time.Millisecond)
 		w.Settle()
+		// optionally a Send is blocked behind the full queue (one-second
+		// deadline, not best-effort) at the moment of the resize: it ends by its
+		// deadline at the latest, whatever the resize does to the queue
+		var blockedSend *Call
+		if canSend(kind) && kind != "rep" && kind != "respondent" && w.Choose(simrt.SProg, 3) == 0 {
+			if s.SetOption(mangos.OptionBestEffort, false) == nil && s.SetOption(mangos.OptionSendDeadline, time.Second) == nil {
+				blockedSend = w.Do("Send(blocked at the resize)", func() (interface{}, error) { return nil, SendBody(s, kind, []byte("blocked")) })
+				w.Settle()
+				if !blockedSend.Returned() {
+					w.Probe("send-blocked-at-resize")
+				}
+			}
+		}
 		opt := []string{mangos.OptionReadQLen, mangos.OptionWriteQLen}[w.Choose(simrt.SProg, 2)]
 		val := []int{0, 1, 2, 5, 128}[w.Choose(simrt.SProg, 5)]
 		c := w.Do("SetOption("+opt+")", func() (interface{}, error) { return nil, s.SetOption(opt, val) })
 		w.Sleep(5 * time.Millisecond)
 		w.Settle()
+		if blockedSend != nil {
+			defer func() {
+				if w.Failed() {
+					return
+				}
+				if rem := blockedSend.InvTime + time.Second - w.Now(); rem > 0 {
+					w.Sleep(rem)
+				}
+				w.Settle()
+				if !blockedSend.Returned() {
+					w.Failf("C18/late", "%s: a Send with a one-second deadline was blocked when %s was changed to %d; %v after its invocation it is still pending", kind, opt, val, w.Now()-blockedSend.InvTime)
+				} else if blockedSend.Err != nil && blockedSend.Err != mangos.ErrSendTimeout {
+					w.Failf("C18/wrong-timeout-error", "%s: the Send blocked during the resize returned %v", kind, blockedSend.Err)
+				} else if blockedSend.Err == mangos.ErrSendTimeout && blockedSend.RetTime != blockedSend.InvTime+time.Second {
+					w.Failf("C18/early", "%s: the Send blocked during the resize timed out at %v, invoked at %v with a one-second deadline", kind, blockedSend.RetTime, blockedSend.InvTime)
+				}
+			}()
+		}
 		if !c.Returned() {
 			if w.WedgeCheck("C12") {
 				return
